@@ -185,12 +185,14 @@ func runEQReuse(c eqReuse) ev.Outcome {
 				o.Finding = findingOptimizedVsBrute
 				o.Err += " [the fresh optimized query also differs from the fresh brute-force query]"
 			case sharedIndexTarget:
-				// decide whether the shared target object is what carries the history
-				q2 := c.Cfg.query(fidx, c.Cfg.options())
-				again := eqCall(q2, op.M, target, s1.ChordAngle(op.Limit))
-				if d2, _ := sameAnswer(op.M, c.Cfg, again, want); d2 != "" {
+				// Decide whether the shared target object is what carries the
+				// history: give the SAME reused query a NEW target object. (A new
+				// query given the shared target is not a reliable test: a target
+				// left with MaxError = pi answers in Go map order.)
+				again := eqCall(q, op.M, makeTarget(ts, c.Cfg.Furthest, c.TargetShapes), s1.ChordAngle(op.Limit))
+				if d2, _ := sameAnswer(op.M, c.Cfg, again, want); d2 == "" {
 					o.Finding = "target-reuse-maxerror"
-					o.Err += " [a NEW query given the same shared ShapeIndex target object also disagrees: the target object carries state from earlier calls]"
+					o.Err += " [the same reused query given a NEW ShapeIndex target object agrees with the fresh query: the shared target object carries state from earlier calls]"
 				} else {
 					o.Finding = "option-mutation"
 				}
